@@ -213,14 +213,14 @@ def plan(tier):
                 if tier == 'quick':
                     units.append((pol, cl, ('a', 'b', 'c'), 3, 2, prefix, 0))
                 else:
-                    units.append((pol, cl, ('a', 'b', 'c'), 5, 3, prefix, 0))
+                    units.append((pol, cl, ('a', 'b', 'c'), 4, 3, prefix, 0))
                 if cl in (1, 10) and pol in ('least-recently-used',
                                              'least-frequently-used'):
                     # statistics on: lookups take the transactional path
                     units.append((pol, cl, ('a', 'b', 'c'),
                                   3 if tier == 'quick' else 4, 2, prefix, 1))
             if tier != 'quick':
-                units.append((pol, cl, ('a', 'b', 'c', 'd', 'e'), 4, 2,
+                units.append((pol, cl, ('a', 'b', 'c', 'd', 'e'), 3, 2,
                               'empty', 0))
     return units
 
@@ -248,8 +248,8 @@ def main(tier, seed):
                    '{0,1,2,10}; size_limit = empty volume + %d bytes' % ROOM,
         'alphabet': 'set small(40B)/large(120B) file-backed, get, incr, '
                     'touch, delete, expiring sets, cull(), tick',
-        'depth': 'from each start state in %r: quick 3, thorough 5 (3 keys) '
-                 'and 4 (5 keys)' % sorted(PREFIXES),
+        'depth': 'from each start state in %r: quick 3, thorough 4 (3 keys) '
+                 'and 3 (5 keys)' % sorted(PREFIXES),
     }
     rep.assumptions = [
         'volume = page_size * page_count + sum of value file sizes; when '
